@@ -18,7 +18,7 @@ use crate::procmon::{self, Run, Scratch, StdinKind, StdoutKind};
 use crate::rng::Rng;
 
 pub const VOCAB: &[&str] = &[
-    "-f", "-t", "-fj", "-fjson", "-f=yaml", "-fy", "-ft", "-fm", "-ty", "-tj", "-tm", "-tt", "-tmsgpack", "-ttoml", "-t=y", "-tx", "-f=", "-fJSON", "j", "json", "yaml", "m", "bogus", "-h", "--help", "-V", "--version", "--help=x", "--version=1", "-hV", "-Vh", "-tV", "-hx", "--", "-", "-x", "--bogus", "--from", "-F", "good.json", "good.yaml", "good", "bad.json", "undet", "nullval.json", "missing.json", "dir", "", "deep.json", "bom", "-tyml", "-fyml", "note.t", "/proc/version", "caf\u{fffd}.json", "n\u{fffd}ant",
+    "-f", "-t", "-fj", "-fjson", "-f=yaml", "-fy", "-ft", "-fm", "-ty", "-tj", "-tm", "-tt", "-tmsgpack", "-ttoml", "-t=y", "-tx", "-f=", "-fJSON", "j", "json", "yaml", "m", "bogus", "-h", "--help", "-V", "--version", "--help=x", "--version=1", "-hV", "-Vh", "-tV", "-hx", "--", "-", "-x", "--bogus", "--from", "-F", "good.json", "good.yaml", "good", "bad.json", "undet", "nullval.json", "missing.json", "dir", "", "deep.json", "bom", "-tyml", "-fyml", "note.t", "/proc/version", "caf\u{fffd}.json", "n\u{fffd}ant", "big.yaml", "matrix.m",
 ];
 
 pub fn files() -> BTreeMap<String, PathKind> {
@@ -45,6 +45,10 @@ pub fn files() -> BTreeMap<String, PathKind> {
     // translatable file with a telling extension, one name that does not exist
     m.insert("caf\u{fffd}.json".into(), PathKind::Regular(b"{\"name\": \"not utf-8\"}\n".to_vec()));
     m.insert("n\u{fffd}ant".into(), PathKind::Missing);
+    // integers beyond 64 bits (YAML holds them; JSON and YAML can write them, MessagePack and TOML refuse)
+    m.insert("big.yaml".into(), PathKind::Regular(b"id: 18446744073709551616\nneg: -9223372036854775809\nlist: [340282366920938463463374607431768211455]\n".to_vec()));
+    // JSON in a file whose extension is a one-letter format alias
+    m.insert("matrix.m".into(), PathKind::Regular(b"[[1, 2], [3, 4]]\n".to_vec()));
     // a regular file of the proc file system: it reports size 0, cannot be mapped, and still has content
     // (whatever it holds on this machine: the model runs the library on the same bytes)
     match std::fs::read("/proc/version") {
